@@ -2,6 +2,7 @@ import Req.Client.Auth
 import Req.Client.Digest
 import Req.Client.Rfc7616
 import Req.Lemmas.C20Base64
+import Req.Lemmas.C20Accept
 /-!
 C20 — authentication headers are computed correctly: property theorems.
 
@@ -129,5 +130,89 @@ example : serverBearer (bearer [116, 111, 107, 58, 32, 195, 169]) = some [116, 1
   decide
 
 end basic
+
+/-! ## Digest -/
+
+section digest
+open Req.Digest Req.Rfc7616 Req.Ascii
+
+/-- Everything the header must carry inside a quoted-string is qdtext. -/
+structure Expressible (c : Challenge) (user uri : Bytes) : Prop where
+  user : c.userhash = b!"true" ∨ user.all isQd = true
+  realm : c.realm.all isQd = true
+  nonce : c.nonce.all isQd = true
+  uri : uri.all isQd = true
+  opaq : c.opaq.all isQd = true
+
+theorem colons_eq_colonJoin : ∀ l : List Bytes, colons l = colonJoin l
+  | [] => rfl
+  | [_] => rfl
+  | x :: y :: r => by
+    have := colons_eq_colonJoin (y :: r)
+    simp only [colons, colonJoin, this, List.append_assoc, List.singleton_append]
+
+theorem digest_accepted (H : Alg → Bytes → Bytes) (hH : ∀ a x, (H a x).all isQd = true)
+    (raw : Bytes) (c : Challenge) (user pass method uri body : Bytes) (rnd : Option Bytes) (hdr : Bytes)
+    (hp : parseChallenge raw = .ok c)
+    (hx : Expressible c user uri)
+    (ha : authorize H algOf c { user, pass, method, uri } rnd = .ok hdr) :
+    verify H specAlg { issued := issuedOf c, method, uri, user, pass, body } hdr = true := by
+  have hnc : 44 ∉ c.qop := (parseChallenge_noComma hp).2.2.2.2.2.2.1
+  unfold authorize at ha
+  split at ha
+  · cases ha
+  · rename_i alg halg
+    split at ha
+    · cases ha
+    · rename_i hvq
+      split at ha
+      · cases ha
+      · rename_i hsess
+        split at ha
+        · cases ha
+        · rename_i r
+          simp only [Except.ok.injEq] at ha
+          subst ha
+          have hvq' : validateQop c.qop = true := by simpa using hvq
+          have hqop := validateQop_noComma hnc hvq'
+          have hspec := algOf_spec halg
+          have halg' : c.algorithm = [] ∨ (c.algorithm ≠ [] ∧ c.algorithm.all isTokenByte = true) := by
+            rcases hspec with ⟨e, _, _⟩ | ⟨e1, e2, _⟩
+            · exact Or.inl e
+            · exact Or.inr ⟨e1, e2⟩
+          have hcn : ((hex r).take 32).all isQd = true := all_take 32 (hex_all_qd r)
+          have hnc1 : hex8 (0 + 1) = b!"00000001" := hex8_one
+          have hncok : hex8 (0 + 1) ≠ [] ∧ (hex8 (0 + 1)).all isTokenByte = true := by
+            rw [hnc1]; decide
+          have hok := params_ok (H alg) c { user, pass, method, uri } (hex8 (0 + 1)) ((hex r).take 32)
+            (hH alg) hx.user hx.realm hx.nonce hx.uri hx.opaq halg' hqop hncok hcn
+          have hpc : parseCredentials (digestPrefix ++ commaJoin ((params (H alg) c { user, pass, method, uri }
+              (hex8 (0 + 1)) ((hex r).take 32)).map Param.render)) =
+              some (pairs (params (H alg) c { user, pass, method, uri } (hex8 (0 + 1)) ((hex r).take 32))) :=
+            parseCredentials_render _ (params_ne_nil (H alg) c { user, pass, method, uri }
+              (hex8 (0 + 1)) ((hex r).take 32)) hok
+          unfold verify
+          simp only [fields, hpc]
+          simp only [names_distinct, get_username, get_realm, get_nonce, get_uri, get_response,
+            get_opaque, get_algorithm, get_userhash, get_qop, get_nc, get_cnonce, Bool.true_and]
+          have hsa : specAlg (effAlg (issuedOf c).algorithm) = some (alg, isSess c.algorithm) := by
+            rcases hspec with ⟨e, ea, es⟩ | ⟨e1, _, e3⟩
+            · simp only [issuedOf, e, ea, es, List.isEmpty_nil, if_true, effAlg]; rfl
+            · have hne : c.algorithm.isEmpty = false := by
+                cases hc : c.algorithm with
+                | nil => exact absurd hc e1
+                | cons _ _ => rfl
+              simp only [issuedOf, hne, Bool.false_eq_true, if_false, e3, effAlg]
+          simp only [hsa, beq_self_eq_true, Bool.true_and, colons_eq_colonJoin]
+          rcases hqop with hq | hq
+          · have hs : isSess c.algorithm = false := by simpa [hq] using hsess
+            by_cases huh : (c.userhash == b!"true") = true <;>
+              simp [hq, hs, huh, response, issuedOf]
+          · by_cases huh : (c.userhash == b!"true") = true <;>
+              cases hs : isSess c.algorithm <;>
+              simp [hq, hs, huh, response, issuedOf, hnc1]
+
+
+end digest
 
 end Req.Props.C20
